@@ -281,7 +281,8 @@ def gen_cases_raw(ctx):
         t["stamps"] = [s for s in t["stamps"] if s < 2 ** 31] or [0.5]
         m = len(t["stamps"])
         yield {"kind": "bag", "stamps": t["stamps"], "xyz": t["xyz"][:m], "quat": t["quat"][:m],
-               "frame": r.choice(["map", "", "odom", "wörld/位置", "base link"])}
+               "frame": r.choice(["map", "", "odom", "wörld/位置", "base link", "/world", "world/", "//a", "/", "/a/b/", " map", "map ", " ", "\\tf", "/ x",
+                                  "MAP", "1e3", "-1", "a//b", "/wörld", "tab\tid"])}
     # path-reuse histories: save X to p; load p; save Y to p; load p; ... with p spelled in several ways
     for _ in range(120 if not th else 600):
         target = r.choice(["res", "res", "res", "tum", "kitti", "euroc", "tf"])
@@ -559,12 +560,13 @@ def impl_bag(c):
         back = fi.read_bag_trajectory(rd, "/traj")
     from rosbags.typesys import get_typestore, Stores
     ts = get_typestore(Stores.ROS1_NOETIC)
-    hdr = []
+    hdr, raw_frames = [], []
     with Reader(p) as rd:
         for conn, _, raw in rd.messages():
             m = ts.deserialize_ros1(raw, conn.msgtype)
             hdr.append([int(m.header.stamp.sec), int(m.header.stamp.nanosec)])
-    return {"status": "ok", "back": traj_bits(back), "frame": back.meta.get("frame_id"), "hdr": hdr}
+            raw_frames.append(m.header.frame_id)
+    return {"status": "ok", "back": traj_bits(back), "frame": back.meta.get("frame_id"), "hdr": hdr, "raw_frames": raw_frames}
 
 
 def result_seen(back):
@@ -1085,6 +1087,9 @@ def judge_bag(ctx, c, impl, outs):
                 break
     if impl["frame"] != c["frame"]:
         ctx.fail(c, "bag-frame-id", f"written {c['frame']!r}, read {impl['frame']!r}")
+    if any(f != c["frame"] for f in impl["raw_frames"]):
+        ctx.fail(c, "bag-frame-id", f"written {c['frame']!r}, the messages in the bag carry {sorted(set(impl['raw_frames']))!r}")
+    ctx.count("dist", "frame:" + ("leading-slash" if c["frame"].startswith("/") else "blank-edge" if c["frame"] != c["frame"].strip() else "other"))
     ctx.count("branch", "bag:file")
     ctx.record(c, len(want["rows"]) > 1)
 
